@@ -12,6 +12,7 @@ oracle: on the REAL engine: unescape5(render with autoescape on) == render with 
         escaping-neutral constructs, (iii) hypothesis probes.
 """
 import html
+import re
 
 from . import lib
 from . import esc_lang as L
@@ -119,6 +120,14 @@ class NGen(TGen):
         return self.e_list(d)
 
 
+def neutral_set_filters(src):
+    """the shared generator puts filters on set blocks regardless of `neutral`: `upper` maps the entities of the
+    captured Markup to &LT; ... (not one of the five entities unescape5 decodes) and `replace` compares escaped with
+    unescaped text — both are outside C16's statement; keep the set-block-with-filter shape with neutral filters"""
+    src = re.sub(r"(\{% set \w+) \| upper %\}", r"\1 | lower %}", src)
+    return re.sub(r"(\{% set \w+) \| replace\((?:[^%]|%(?!\}))*\) %\}", r"\1 | trim %}", src)
+
+
 # hand-written shapes the generators do not produce: recursive loops (return_buffer_contents),
 # self.block() calls, module rendering of an imported template
 EXTRA_SETS = [
@@ -171,7 +180,7 @@ def run(ctx):
     # ---------------- K-esc: escape / unescape5
     strs = []
     alpha = ["&", "<", ">", '"', "'", "a", ";", "#", "l", "t", "m", "p", "g", "3", "4", "9", " "]
-    for _ in range(ctx.size(1500, 15000)):
+    for _ in range(ctx.size(1000, 15000)):
         strs.append("".join(ctx.rng.choice(alpha) for _ in range(ctx.rng.randint(0, 10))))
     strs += ["&amp;", "&lt;", "&gt;", "&#34;", "&#39;", "&amp;lt;", "&&amp;", "&am&amp;p;", "&#3&#39;4;", "&lt", "&#x27;"]
     eo = ctx.driver("esc", ["E " + L.enc(s) for s in strs])
@@ -200,7 +209,7 @@ def run(ctx):
             break
 
     # ---------------- K-lang: extracted evaluator vs real engine
-    n_prog = ctx.size(1200, 12000)
+    n_prog = ctx.size(600, 12000)
     cases = []
     for i in range(n_prog):
         g = L.LGen(ctx.rng, neutral=ctx.rng.random() < 0.4, safe_ok=ctx.rng.random() < 0.3,
@@ -232,7 +241,7 @@ def run(ctx):
             ctx.validated()
 
     # ---------------- O-T: the property on the real engine for programs inside the hypotheses
-    n_o = ctx.size(1200, 12000)
+    n_o = ctx.size(600, 12000)
     progs = []
     for i in range(n_o):
         g = L.LGen(ctx.rng, neutral=True, safe_ok=False, text=("safe", "meta"), ae="f", depth=3)
@@ -250,17 +259,18 @@ def run(ctx):
             ctx.reject({"kind": "T", "source": src, "prog": t, "data": d, "lists": dl}, w, "C16:T-program")
 
     # ---------------- O-sets: shared generator, include / import / extends / super
-    n_sets = ctx.size(700, 7000)
+    n_sets = ctx.size(400, 7000)
     for idx in range(n_sets):
         g = NGen(ctx.rng, meta=True, neutral=True, depth=3,
                  features=["if", "for", "set", "setblock", "with", "macro", "call", "include", "import", "extends"])
         ts, main = g.template_set()
+        ts = {k: neutral_set_filters(v) for k, v in ts.items()}
         data = g.data()
         w = judge_set(jinja2, ts, main, data, ctx)
         if w:
             ctx.reject({"kind": "set", "templates": ts, "data": data}, w, GEN_SIG if w == GEN_BUG else "C16:template-set")
     for ts, mk in EXTRA_SETS:
-        for _ in range(ctx.size(25, 200)):
+        for _ in range(ctx.size(15, 200)):
             g = TGen(ctx.rng, meta=True)
             data = mk(g)
             w = judge_set(jinja2, ts, "main.html", data, ctx, kind="extra")
@@ -270,7 +280,7 @@ def run(ctx):
     # ---------------- hypothesis probes
     # (i) template text with '&...;' look-alikes: the model must still predict the engine, and with the
     #     '&' of the TEXT replaced by a stand-in character the property must hold on the same template
-    n_p = ctx.size(300, 3000)
+    n_p = ctx.size(200, 3000)
     pcases = []
     for i in range(n_p):
         g = L.LGen(ctx.rng, neutral=True, safe_ok=False, text=("safe", "amp"), ae="f", depth=2)
@@ -307,7 +317,7 @@ def run_sets(ctx, jinja2):
     """second round: template sets of Model/EscLang2.v (set block with filter, include, import, blocks / super())"""
     # K-sets: extracted EscLang2.render vs the real engine, every template with its own selector setting
     cases = []
-    for _ in range(ctx.size(500, 5000)):
+    for _ in range(ctx.size(300, 5000)):
         st, d, dl, g = L2.gen_set(ctx.rng, neutral=ctx.rng.random() < 0.4, safe_ok=ctx.rng.random() < 0.2,
                                   text=("safe", "meta", "amp"), ae_ops="01f")
         cases.append((st, ctx.rng.random() < 0.5, d, dl, g.stats))
@@ -329,7 +339,7 @@ def run_sets(ctx, jinja2):
         else:
             ctx.validated()
     # O-sets2: the property on the real engine for sets inside the hypotheses of C16_escape_once_sets
-    for _ in range(ctx.size(500, 5000)):
+    for _ in range(ctx.size(300, 5000)):
         st, d, dl, g = L2.gen_set(ctx.rng, neutral=True, safe_ok=False, text=("safe", "meta"), ae_ops="f")
         on = L2.real_render(jinja2, dict(st, ae={t: True for t in st["ae"]}), True, d, dl)
         off = L2.real_render(jinja2, dict(st, ae={t: False for t in st["ae"]}), False, d, dl)
